@@ -474,3 +474,64 @@ pub fn run_keygen(seed: u64, proc_tag: u64, unseeded: usize, out: &mut Vec<Value
         out.push(ev);
     }
 }
+
+
+// ---- C10: the message a prover emits, through writers of every legal kind --------------------------------------
+/// a writer that accepts at most `max` bytes per call (a pipe, a socket): legal `std::io::Write` behaviour
+struct ChunkWriter {
+    buf: Vec<u8>,
+    max: usize,
+}
+impl std::io::Write for ChunkWriter {
+    fn write(&mut self, b: &[u8]) -> std::io::Result<usize> {
+        let n = b.len().min(self.max);
+        self.buf.extend_from_slice(&b[..n]);
+        Ok(n)
+    }
+    fn flush(&mut self) -> std::io::Result<()> {
+        Ok(())
+    }
+}
+
+/// One proving request, emitted through a growable vector, through writers taking 100 / 7 / 1 bytes per call and into a
+/// fixed buffer that is too small. Recorded: what arrived (length, the 160 public-value bytes, whether the complete
+/// message verifies) and the result flag. The proof part is randomised, the public values are not.
+pub fn run_messages(seed: u64, out: &mut Vec<Value>) {
+    use crate::rln_exec::{enc_fr, new_rln};
+    use rln::hashers::poseidon_hash;
+    use std::io::Cursor;
+    let mut r = ChaCha20Rng::seed_from_u64(seed ^ 0x6d657373);
+    let Ok(mut rln) = new_rln(20, &Value::Null) else { return };
+    for round in 0..2usize {
+        let s = pick_fr(&mut r);
+        let lim = Fr::from(100u64);
+        let idx = [5usize, (1 << 19) + 1][round];
+        let rc = poseidon_hash(&[poseidon_hash(&[s]), lim]);
+        let _ = rln.set_leaf(idx, Cursor::new(enc_fr(&rc)));
+        let sig: Vec<u8> = (0..[0usize, 137][round]).map(|_| r.gen()).collect();
+        let req = prepare_prove_input(s, idx, lim, Fr::from(3u64), pick_fr(&mut r), &sig);
+        let mut reference: Option<Vec<u8>> = None;
+        for max in [usize::MAX, 100, 7, 1] {
+            let mut w = ChunkWriter { buf: Vec::new(), max };
+            let res = catch(AssertUnwindSafe(|| rln.generate_rln_proof(Cursor::new(req.clone()), &mut w)));
+            let ok = matches!(res, Ok(Ok(())));
+            let got = w.buf;
+            let mut ev = json!({"t": "codec", "f": "message", "writer": if max == usize::MAX { 0 } else { max as u64 }, "res": if ok { "ok" } else { "err" },
+                                "len": got.len(), "pub": if got.len() >= 288 { got[128..288].to_vec() } else { Vec::new() }});
+            if max == usize::MAX && ok {
+                reference = Some(got.clone());
+            }
+            ev["ref_pub"] = json!(reference.as_ref().map(|g| g[128..288.min(g.len())].to_vec()).unwrap_or_default());
+            let mut m = got.clone();
+            m.extend((sig.len() as u64).to_le_bytes());
+            m.extend(&sig);
+            let v = catch(AssertUnwindSafe(|| rln.verify_rln_proof(Cursor::new(m))));
+            ev["accepted"] = json!(matches!(v, Ok(Ok(true))));
+            out.push(ev);
+        }
+        // a fixed buffer that cannot hold the message: the call must not report success
+        let mut small = [0u8; 200];
+        let res = catch(AssertUnwindSafe(|| rln.generate_rln_proof(Cursor::new(req.clone()), &mut small[..])));
+        out.push(json!({"t": "codec", "f": "message_small", "res": if matches!(res, Ok(Ok(()))) { "ok" } else { "err" }}));
+    }
+}
